@@ -119,6 +119,7 @@ type Engine struct {
 	cfgType             types.Type
 	stop                atomic.Bool
 	mergeLoss           bool // the last merge turned concrete lengths into symbolic ones
+	harnessOpts         map[string]int
 	lossyOK             bool // bound merge_lossy=1: byte-slice windows may become symbolic when outcomes are merged
 	arrSyms             map[string]*ArrSym
 	prefer              []*Term
@@ -170,6 +171,9 @@ func (e *Engine) note(s string) {
 }
 
 func (e *Engine) bound(name string, def int) int {
+	if v, ok := e.harnessOpts[name]; ok {
+		return v // set by the harness itself (vpEngineOption)
+	}
 	if v, ok := e.cfg.Bounds[name]; ok {
 		return v
 	}
@@ -692,6 +696,7 @@ func (e *Engine) RunHarness(fn *ssa.Function, caseIdx int) *HarnessReport {
 	rep := &HarnessReport{Name: fn.Name(), Unsupported: map[string]int{}, Reach: map[string]int{}, AssertIDs: map[string]int{},
 		Notes: map[string]int{}, Funcs: map[string]bool{}, Intrinsics: map[string]int{}, Bounds: map[string]int{}, Assumes: map[string]int{}}
 	e.rep = rep
+	e.harnessOpts = map[string]int{}
 	if fn.Pkg != nil {
 		rep.Pkg = fn.Pkg.Pkg.Path()
 	}
